@@ -63,6 +63,4 @@ def run(ctx):
         ctx.case("rz:" + vlib.fp(tr[0]["scen"]))
     ctx.notes["random_zones"] = len(traces)
     ctx.sample({"random_zone_trace": [tr for tr in traces[:1]][0][:3]})
-    CH = 5000
-    for i in range(0, len(traces), CH):
-        vlib.check_traces(ctx, traces[i:i + CH], "rz%d" % (i // CH), module="TraceResolve", cfg="TraceResolve.cfg", specname="Resolve.tla (random zone)")
+    vlib.check_traces_chunks(ctx, traces, 4000, "rz", module="TraceResolve", cfg="TraceResolve.cfg", specname="Resolve.tla (random zone)")
